@@ -813,6 +813,25 @@ pub fn gen_case(prop: Prop, rng: &mut Rng) -> GenCase {
             knobs.apis = apis_for(&all_fams, true);
         }
     }
+    // every single-run property is also exercised after earlier runs on the same graph
+    // value and next to another run on it (a sixteenth of the cases each)
+    if mode == Mode::Single && prop != Prop::C14 {
+        match rng.below(16) {
+            0 => {
+                mode = Mode::History;
+                nruns = rng.range(2, 3);
+                allow_wide = false;
+                knobs.allow_abort = true;
+            }
+            1 => {
+                mode = Mode::Concurrent;
+                nruns = 2;
+                allow_wide = false;
+                knobs.apis.retain(|a| !a.is_mut());
+            }
+            _ => {}
+        }
+    }
     let mut n = pick_n(rng, allow_wide, wide_pct, min_n);
     if !allow_wide && rng.chance(1, 16) {
         // histories / simultaneous runs: moderately wide graphs, too
@@ -829,7 +848,7 @@ pub fn gen_case(prop: Prop, rng: &mut Rng) -> GenCase {
     let mut sched = Vec::new();
     for i in 0..nruns {
         let mut k = knobs.clone();
-        if prop == Prop::C15 && i + 1 == nruns {
+        if mode == Mode::History && i + 1 == nruns {
             // the probe run is an ordinary run
             k.allow_abort = rng.chance(1, 4);
         }
